@@ -106,7 +106,7 @@ def trace(lines, period: int = 1, snapshot_each: bool = False, mid_snapshot: boo
     is a snapshot (and, if mid_snapshot, the one in the middle too); the others are incremental.  snapshot_each: take an
     additional snapshot right after every incremental report (the queue is empty then, so it is independent of it).
     `patch(run)` may modify the freshly built run (used by the detection-power scripts only)."""
-    run = Run("\n".join(lines), observe=())
+    run = Run("\n".join(lines), observe=(), built_before_start=3.0)      # UOD and engine objects exist 3 s before the engine starts
     if patch is not None:
         patch(run)
     builder = EngineMessageBuilder(run.engine, "verif", False)
